@@ -39,7 +39,7 @@ struct SpinHarness {
 	const char *prop() { return "C12"; }
 	Lock &lock() { return *reinterpret_cast<Lock *>(store); }
 	int nthreads() { return T; }
-	void setup() { memset(store, 0, sizeof store); new(store) Lock(); if(wrap) memset(store, 0xFF, sizeof(Lock)); in_cs = 0; counter = 0; nentries = 0; }
+	void setup() { memset(store, 0xA5, sizeof store); new(store) Lock; if(wrap) memset(store, 0xFF, sizeof(Lock)); in_cs = 0; counter = 0; nentries = 0; }
 	void body(int tid) {
 		for(int r = 0; r < R; r++) {
 			lock().lock();
